@@ -340,7 +340,7 @@ package jet
 //@   ensures PInv(t) && result != nil && WFTag(result)
 
 //@ func (*Template).itemList
-//@   props C02
+//@   props C02 C20
 //@   requires PInv(t)
 //@   modifies @Parse
 //@   loop 0 invariant PInv(t) && list != nil
@@ -425,7 +425,7 @@ package jet
 //@   ensures PInv(t) && result != nil && WFTag(result)
 
 //@ func (*Template).parseTemplate
-//@   props C02 C03 C08
+//@   props C02 C03 C08 C20
 //@   requires PInv(t) && len(t.imports) == 0 && t.extends == nil
 //@   modifies @Parse, t.Root, t.extends, t.imports
 //@   loop 0 invariant PInv(t) && t.Root != nil && fresh(t.Root)
